@@ -4,7 +4,7 @@
 # genuine defect or a false alarm of the machinery and must be analysed.
 SEEDS=$1; shift
 IDS=${@:-C01 C02 C03 C04 C05 C06 C07 C08 C09 C10 C11 C12 C13 C14 C15 C16 C17 C18 C19 C20}
-VC=/tmp/verif_sweep_$$
+VC=/tmp/pfsweep_$$_$RANDOM
 rsync -a --exclude .git --exclude 'replay/*.json' /verif/ $VC/
 for s in $SEEDS; do for id in $IDS; do
   (cd $VC && VERIF_SEED=$s ./check $id 2>&1 | grep -E "VIOLATION|^\[C|^  " | head -6 | sed "s/^/seed=$s /")
